@@ -6,6 +6,9 @@ survives edits elsewhere in the function and dies with the symbol.
 """
 
 IEF = {
+    ('same_structure_dataframe_diffs', 'NOITEM', '(D > 0).sum().item()'):
+        'D is the sum of the per-column masks after astype(int) (create_row_diff_counts): a numpy integer Series, so the '
+        'reduction is a numpy scalar; the masks themselves are made plain bool by single_col_diffs',
     ('BaseConstraintVerifier.verify_sign_constraint', 'UNBOUND', 'result'):
         'if/elif chain over constraint.value covers the closed enumeration SIGNS; SignConstraint.__init__ validates '
         'the value against SIGNS at construction (check_validity), so no other value reaches the verifier',
